@@ -212,12 +212,16 @@ CLAIMED = {
          "trip (block_roundtrip: Decoder.Write on the encoder's output for any field list emits the list, no error, nothing held "
          "back, tables identical) also ACROSS ANY SCHEDULE of SetMaxDynamicTableSize calls before the block "
          "(block_roundtrip_after_resize: the pending-change invariant Pend, the size-update prologue, eviction composes as "
-         "fit_fit), eviction exactness (add_exact, exact_fit_kept); decoder and encoder "
+         "fit_fit), FRAGMENT INDEPENDENCE (fragment_independence: for every decoder state, byte string and way of cutting it into "
+         "any number of fragments, successive Writes give exactly the fields, error and final state of one Write of the whole; "
+         "write_split; prefix stability parseRepr_append, consumption bounds parseRepr_consumes show the pending-buffer length "
+         "check can never fire spuriously), eviction exactness (add_exact, exact_fit_kept); decoder and encoder "
          "are total functions. Model tied to the code by exact differentials on encoder sequences and on the decoder over encoder "
          "output / mutations / random bytes / fragmentations; ORACLES: round trip with identical tables, fragment independence"),
-   note=("PARTIAL: the round-trip half of the statement is a theorem (integers, Huffman, strings, fields, header blocks, table-size "
-         "schedules, table synchrony; SetMaxDynamicTableSizeLimit schedules are not covered); the decoder's verdict on arbitrary "
-         "bytes and fragment independence are decided by the oracles over generated inputs, not yet by theorems. "
+   note=("The round-trip half (integers, Huffman, strings, fields, header blocks, table-size schedules, table synchrony; "
+         "SetMaxDynamicTableSizeLimit schedules not covered), fragment independence and the table bound are theorems about the "
+         "model; 'what RFC 7541 specifies' for arbitrary bytes is the model itself (a transliteration) plus the rejection theorems "
+         "(size_update_limited, eos_rejected), tied to the code by the differential. "
          "Trusted: Lean kernel + standard axioms (decide +kernel uses kernel evaluation, no extra axioms); translator; harness. The "
          "server links x/net v0.19.0's copy of hpack, not this one. Found and fixed D6 and D12"),
    technique="Lean 4 theorems over a full executable model + regenerated tables + differential with round-trip / fragmentation oracles",
